@@ -125,11 +125,24 @@ def units(tier):
     for part in spaces.shard(list(range(len(inn))), 8):
         out.append({'fam': 'many', 'inners': part, 'tier': tier})
     out.append({'fam': 'sources', 'tier': tier})
+    out.append({'fam': 'sameobj', 'tier': tier})
     return out
+
+
+SAMEOBJ = [[['count']], [['scan', 'add', '0']], [['last']], [['to_list']], [['distinct']], [['take', 2]], [['lag', 1]], [['lag', 2]], [['first']],
+           [['duc']], [['pad_start', 1]], [['pad_end', 1]], [['start_with', [7]]], [['batch', 2]], [['sum']], [['mean']], [['min']], [['max', True]],
+           [['variance']], [['fstddev', True]], [['roll', 2, 1, [['to_list']]]], [['split', 'even', [['count', True]]]],
+           [['group_by', 'mod2', [['count', True]]]]]
 
 
 def cases(unit):
     fam = unit['fam']
+    if fam == 'sameobj':
+        # ONE operator object placed twice in the same pipeline (both branches of a tee_map): each place has its own state
+        for i in range(len(SAMEOBJ)):
+            for seq in spaces.sequences([0, 1, 2], 3):
+                yield {'fam': 'sameobj', 'op': i, 'seq': seq}
+        return
     if fam == 'sources':
         # two sources multiplexed onto ONE store (with_store(store, sources=[...])): each source runs its own stateful pipeline
         pipes = [[['count']], [['scan', 'add', '0']], [['last']], [['to_list']], [['distinct']], [['take', 2]], [['lag', 1]], [['first']],
@@ -255,10 +268,39 @@ def run_sources(case, acc):
     return out
 
 
+def run_sameobj(case, acc):
+    import rx
+    import rxsci as rs
+    from ..drivers import Sink
+    spec = SAMEOBJ[case['op']]
+    items = [10 * i + c for i, c in enumerate(case['seq'])]
+
+    def pipeline(shared):
+        a = opspecs.build(spec)
+        b = a if shared else opspecs.build(spec)
+        return [rs.ops.group_by(lambda x: x % 2, [rs.ops.tee_map(a, [rs.ops.map(lambda x: x + 100)] + b, join='merge')])]
+    res = []
+    for shared in (True, False):
+        sink = Sink()
+        sink.subscribe_to(rx.from_(items).pipe(rs.state.with_memory_store(pipeline(shared))))
+        res.append(sink)
+        acc.evals += 1
+        acc.events += len(items) + 1
+        acc.traces += 1
+    acc.count('operator_object_used_twice')
+    acc.outcomes.add(fast_hash(repr((spec, res[1].items))))
+    if res[1].error is None and (repr(res[0].items) != repr(res[1].items) or res[0].completed != res[1].completed or res[0].error is not None):
+        return [viol('sameobj', spec, 'one-operator-object-in-two-places-behaves-differently-from-two-objects',
+                     {'operator': spec, 'items': items, 'with_one_object': res[0].items, 'with_two_objects': res[1].items, 'error': repr(res[0].error)})]
+    return []
+
+
 def run_case(case, acc):
     fam = case['fam']
     if fam == 'sources':
         return run_sources(case, acc)
+    if fam == 'sameobj':
+        return run_sameobj(case, acc)
     if fam == 'raw':
         return run_raw(case, acc)
     if fam == 'many':
